@@ -6,7 +6,7 @@
 namespace sim {
 namespace {
 
-struct Instant { char kind; long idx; };   // 'p' hook point, 'w' pwrite
+struct Instant { char kind; long idx; };   // 'p' hook point, 'w' pwrite, 'c' wall-clock read (inside the message routine)
 
 struct C14 : Scenario {
     const char* id() const override { return "C14"; }
@@ -63,9 +63,10 @@ struct C14 : Scenario {
 
     struct Ctx {
         const Plan* plan; RunCtx* rc; Cfg cfg; Derived d; uint64_t entropy; int planner;
-        Outcome* o; H5Snap U; LaunchResult Ures; std::vector<std::string> labels; long H = 0, W = 0, B = -1;
+        Outcome* o; H5Snap U; LaunchResult Ures; std::vector<std::string> labels; long H = 0, W = 0, C = 0, B = -1;
         std::map<unsigned, H5Snap> S;   // reference runs configured to stop at step j
         long nlaunch = 0;
+        bool hung = false;              // a launch hung: stop enumerating this configuration (every further hang costs the time-out)
     };
 
     static Launch base_launch(Ctx& x, const Cfg& c, const std::string& tag) {
@@ -94,7 +95,8 @@ struct C14 : Scenario {
         Cfg c = x.cfg;
         c.output = "I.h5";
         Launch l = base_launch(x, c, "I");
-        for (auto& in : set) (in.kind == 'p' ? l.rt.sigint_points : l.rt.sigint_writes).push_back(in.idx);
+        for (auto& in : set) (in.kind == 'p' ? l.rt.sigint_points : in.kind == 'w' ? l.rt.sigint_writes : l.rt.sigint_clocks).push_back(in.idx);
+        l.timeout_s = 10;   // (a run of a few steps takes milliseconds; a hang is a verdict of clause 1, not an infrastructure matter)
         LaunchResult r = run_launch(l);
         x.nlaunch++;
         o.checks++;
@@ -103,6 +105,7 @@ struct C14 : Scenario {
             o.fail(clause, "interrupt at [" + name + "]: " + msg);
         };
         // clause 1: exits by itself with status 0
+        if (r.timed_out) { x.hung = true; bad("C14.exit", "the program did not end within " + std::to_string(l.timeout_s) + " s after the signal (hang); stdout tail: " + tail(r.out, 200)); return; }
         if (!r.exited) { bad("C14.exit", "process died: " + r.describe() + " stderr: " + tail(r.err)); return; }
         if (r.sanitizer) { bad("C14.exit", "sanitizer report: " + tail(r.err, 600)); return; }
         if (r.code != 0) { bad("C14.exit", "exit status " + std::to_string(r.code) + " stderr: " + tail(r.err)); return; }
@@ -118,6 +121,7 @@ struct C14 : Scenario {
         if (r.raised.size() > 1) o.fault("sigint_repeated", (long)r.raised.size() - 1);
         if (starts_with(label, "out_")) o.probe("reach.signal_in_output_block");
         if (f[0] == "pwrite") o.probe("reach.signal_inside_pwrite");
+        if (f[0] == "clock") o.probe("reach.signal_inside_message_routine");
         if (phase == "setup") o.probe("reach.signal_before_first_step");
         if (phase == "post") o.probe("reach.signal_after_last_step");
         // clause 4: steps executed
@@ -173,9 +177,9 @@ struct C14 : Scenario {
 
     Instant decode(Ctx& x, const std::string& tok) const {
         Instant in;
-        in.kind = tok[0] == 'w' ? 'w' : 'p';
+        in.kind = tok[0] == 'w' ? 'w' : tok[0] == 'c' ? 'c' : 'p';
         long v = atol(tok.c_str() + 1);
-        long mod = in.kind == 'p' ? x.H : x.W;
+        long mod = in.kind == 'p' ? x.H : in.kind == 'w' ? x.W : x.C;
         in.idx = mod > 0 ? v % mod : 0;
         return in;
     }
@@ -256,6 +260,7 @@ struct C14 : Scenario {
             if (!x.U.ok) { o.set_infra("uninterrupted run produced unreadable file"); return o; }
             x.H = x.Ures.sumi("point_hits");
             x.W = x.Ures.sumi("io_writes");
+            x.C = x.Ures.sumi("clock_reads");
             for (auto& line : split(unesc(x.Ures.sum["text"]), '\n'))
                 if (starts_with(line, "P ")) x.labels.push_back(line.substr(2));
             for (size_t i = 0; i < x.labels.size(); i++) if (x.labels[i] == "before_report") x.B = (long)i;
@@ -275,6 +280,7 @@ struct C14 : Scenario {
         } else {
             for (long k = 0; k < x.H; k++) sets.push_back({Instant{'p', k}});
             for (long k = 0; k < x.W; k++) sets.push_back({Instant{'w', k}});
+            for (long k = 1; k < x.C; k++) sets.push_back({Instant{'c', k}});   // (read 0 precedes the handler's installation)
         }
         for (auto& s : sets) {
             if (s.size() == 1) { check(x, s, iname(s[0])); }
@@ -298,9 +304,9 @@ struct C14 : Scenario {
                 o.checks++;
                 if (a.ok && !matched) { o.hints["only"] = nm; o.fail("C14.repeated_signals", "run with signals at [" + nm + "] equals none of the runs with a single one of them"); }
             }
-            if (o.infra) break;
+            if (o.infra || x.hung) break;
         }
-        if (only.empty() && !o.infra) {
+        if (only.empty() && !o.infra && !x.hung) {
             for (auto& grp : split(plan.get("multi"), ';')) {
                 if (grp.empty()) continue;
                 std::vector<Instant> s;
@@ -326,7 +332,7 @@ struct C14 : Scenario {
         // informational probe (never a verdict; the property does not speak about clocks): a backwards jump of the wall clock
         // before the report. Display::printText drops a message when now - lastmessage < silentTime, so the final
         // "Aborted." can vanish from log and stdout when the clock steps back (simulated clock seam).
-        if (only.empty() && !o.infra && x.H > 10) {
+        if (only.empty() && !o.infra && !x.hung && x.H > 10) {
             Cfg c = x.cfg; c.output = "J.h5";
             Launch l = base_launch(x, c, "J");
             l.rt.sigint_points = {x.H / 2};
@@ -348,6 +354,7 @@ struct C14 : Scenario {
         o.sample = x.cfg.summary() + " H=" + std::to_string(x.H) + " W=" + std::to_string(x.W) + (only.empty() ? " (all instants)" : " only=" + only);
         o.probes["enum.points"] += only.empty() ? x.H : 0;
         o.probes["enum.pwrites"] += only.empty() ? x.W : 0;
+        o.probes["enum.clock_reads"] += only.empty() ? x.C : 0;
         if (x.cfg.renorm > 0) o.probe("reach.renormalisation_on");
         if (x.d.has_wake) o.probe("reach.with_wake");
         if (x.d.dynamic_rf) o.probe("reach.dynamic_rf");
